@@ -222,7 +222,8 @@ func (h *c10DetHarness) Project() (any, error) {
 			out["unknownRate_"+i] = a.rate
 		}
 		ans[i] = map[string]any{"rate": mr, "keep": a.keep}
-		if a.keep != c10DetSpace.Expected(h.conf[i], h.id) {
+		// the decision must be the one of the rate the instance REPORTS
+		if a.keep != c10DetSpace.Expected(uint64(a.rate), h.id) {
 			agrees = false
 		}
 	}
